@@ -139,7 +139,7 @@ def fault_seeds(prog):
 PHASES = ["used_rand", "pre", "bounds1", "rewrite", "bounds2", "randinfo", "solve", "rollback", "post"]
 
 
-@rule("RN2", ["C03", "C16", "C17", "C02", "C04", "C01", "C08", "C09"], "phase order of do_randomize as dominance facts; rollback in finally on every exit; overrides never outlive a call",
+@rule("RN2", ["C03", "C16", "C17", "C02", "C04", "C01", "C08", "C09", "C14", "C15"], "phase order of do_randomize as dominance facts; rollback in finally on every exit; overrides never outlive a call",
       engine="SAI+CG", floor=5)
 def rn2(prog, rr):
     dr = prog.method("Randomizer", "do_randomize")
